@@ -34,6 +34,9 @@ ORACLE = ('reference model from fetch_table(source): for each summary table (met
           'no summary row has an empty group.')
 ASSUMPTIONS = ['group-by columns have a concrete type (Any-typed group-by columns are a known limitation listed '
                'elsewhere); NaN is not generated; source cells are values Node can send for the column type',
+               'a history stops (without verdict) once a group-by column of the source holds a Date cell that is a '
+               'number but not a whole day, or a negative row id in a Ref/RefList cell (only type conversions '
+               'such as Numeric->Date or Int->Ref produce them): such cells have no well-defined key',
                'the summary `group` and `count` columns are not modified or removed by the generator',
                'documents contain no user formulas except formula columns added to summary tables',
                'a summary table whose source no longer has the group-by column (column removed) is judged on its '
@@ -126,6 +129,26 @@ def expected_groups(d, s, src_rep=None):
   for g in groups:
     g[1].sort()
   return groups, per_row
+
+
+def outside_domain(d, s, src_rep=None):
+  """Label if a group-by cell of the source holds a value whose key is not well defined: a Date cell that is a
+  number but not a whole day (shows as the same date as its midnight), or a negative row id in a Ref/RefList
+  cell (a temporary id). Such cells only arise from type conversions (e.g. Numeric 8.25 -> Date, Int -2 -> Ref)."""
+  if s['source'] is None:
+    return None
+  rep = src_rep or d.fetch_repr(s['source'])
+  for (_sc, src_col, src_type, _r, _t) in s['gb']:
+    base = (src_type or '').split(':')[0]
+    vals = rep[3].get(src_col) or []
+    for v in vals:
+      if base == 'Date' and isinstance(v, (int, float)) and not isinstance(v, bool) and v == v and v % 86400 != 0:
+        return 'date-cell-not-midnight'
+      if base in ('Ref', 'RefList'):
+        elems = v[1:] if isinstance(v, list) and v[:1] == ['L'] else [v]
+        if any(isinstance(x, (int, float)) and not isinstance(x, bool) and x < 0 for x in elems):
+          return 'negative-row-id-in-reference'
+  return None
 
 
 def check_summary(d, s):
@@ -414,6 +437,11 @@ def step(d, out, st_, uas):
   for u in uas:
     out.cls('ok:' + u[0] + (':meta' if len(u) > 1 and isinstance(u[1], str) and u[1].startswith('_grist_') else ''))
   ss = summaries(d)
+  for s in ss:
+    od = outside_domain(d, s)
+    if od:
+      out.cls('left-domain:' + od)
+      return True
   for s in ss:
     out.cls('summary:%d-cols' % len(s['gb']))
     for x in s['gb']:
